@@ -6,6 +6,7 @@ import (
 	"go/constant"
 	"go/token"
 	"go/types"
+	"regexp"
 	"sort"
 	"strings"
 )
@@ -39,6 +40,12 @@ type boundsCtx struct {
 	sum   map[string]calleeSummary
 	roots map[string][]ast.Node // canonical var term -> nodes that modify it
 	defs  map[types.Object][]ast.Node
+	entry []dbc // constraints holding at every call of this closure (inherited)
+	sums2   [][3]string // t == a + b definitions valid at the current use
+	parents map[ast.Node]ast.Node
+	depth   int
+	full    *boundsCtx // context of the enclosing function body (for captured variables)
+	minSz func(recv types.Type) (int64, bool)
 }
 
 // calleeSummary gives facts about results of a call `a, b := F(args)`.
@@ -125,7 +132,7 @@ func (bc *boundsCtx) linOf(e ast.Expr) lin {
 				if !pureExpr(x.Args[0]) {
 					return lin{}
 				}
-				return lin{exprStr(e), 0, true}
+				return lin{tstr(bc.info, e), 0, true}
 			}
 			if id, ok := unparen(x.Fun).(*ast.Ident); ok && (id.Name == "len" || id.Name == "cap") {
 				if _, isB := bc.info.Uses[id].(*types.Builtin); isB {
@@ -133,7 +140,7 @@ func (bc *boundsCtx) linOf(e ast.Expr) lin {
 						return lin{}
 					}
 					// len of array type is constant (handled by constInt); strings/slices:
-					return lin{id.Name + "(" + exprStr(x.Args[0]) + ")", 0, true}
+					return lin{id.Name + "(" + tstr(bc.info, x.Args[0]) + ")", 0, true}
 				}
 			}
 		}
@@ -156,17 +163,17 @@ func (bc *boundsCtx) linOf(e ast.Expr) lin {
 		if !pureExpr(e) {
 			return lin{}
 		}
-		return lin{exprStr(e), 0, true}
+		return lin{tstr(bc.info, e), 0, true}
 	case *ast.Ident, *ast.SelectorExpr, *ast.IndexExpr, *ast.StarExpr:
 		if !pureExpr(e) {
 			return lin{}
 		}
-		return lin{exprStr(e), 0, true}
+		return lin{tstr(bc.info, e), 0, true}
 	}
 	if !pureExpr(e) {
 		return lin{}
 	}
-	return lin{exprStr(e), 0, true}
+	return lin{tstr(bc.info, e), 0, true}
 }
 
 // typeBounds returns constraints implied by the static type/shape of e for term t.
@@ -403,19 +410,70 @@ func (s *dbSolver) proves(x, y string, c int64) bool {
 // --- fact validity (no intervening modification) ---
 
 // termRoots extracts the assignable roots (identifier / selector paths) a term mentions.
-func rootsOfExpr(e ast.Expr, out map[string]bool) {
+func rootsOfExprI(info *types.Info, e ast.Expr, out map[string]bool) {
 	ast.Inspect(e, func(x ast.Node) bool {
 		switch v := x.(type) {
 		case *ast.SelectorExpr:
-			out[exprStr(v)] = true
+			out[tstr(info, v)] = true
 			// also the base: a store to the base invalidates
-			rootsOfExpr(v.X, out)
+			rootsOfExprI(info, v.X, out)
 			return false
 		case *ast.Ident:
-			out[v.Name] = true
+			out[tstr(info, v)] = true
 		}
 		return true
 	})
+}
+
+// tstr renders an expression as a canonical term string in which local
+// variables carry their declaration position, so that shadowed variables of
+// the same name are different terms.
+func tstr(info *types.Info, e ast.Expr) string {
+	switch x := e.(type) {
+	case *ast.Ident:
+		obj := info.Uses[x]
+		if obj == nil {
+			obj = info.Defs[x]
+		}
+		if v, ok := obj.(*types.Var); ok && !v.IsField() && v.Pkg() != nil && v.Parent() != v.Pkg().Scope() {
+			return fmt.Sprintf("%s#%d", x.Name, v.Pos())
+		}
+		return x.Name
+	case *ast.ParenExpr:
+		return "(" + tstr(info, x.X) + ")"
+	case *ast.SelectorExpr:
+		return tstr(info, x.X) + "." + x.Sel.Name
+	case *ast.StarExpr:
+		return "*" + tstr(info, x.X)
+	case *ast.IndexExpr:
+		return tstr(info, x.X) + "[" + tstr(info, x.Index) + "]"
+	case *ast.SliceExpr:
+		s := tstr(info, x.X) + "["
+		if x.Low != nil {
+			s += tstr(info, x.Low)
+		}
+		s += ":"
+		if x.High != nil {
+			s += tstr(info, x.High)
+		}
+		if x.Max != nil {
+			s += ":" + tstr(info, x.Max)
+		}
+		return s + "]"
+	case *ast.CallExpr:
+		var args []string
+		for _, a := range x.Args {
+			args = append(args, tstr(info, a))
+		}
+		return tstr(info, x.Fun) + "(" + strings.Join(args, ", ") + ")"
+	case *ast.BinaryExpr:
+		return tstr(info, x.X) + " " + x.Op.String() + " " + tstr(info, x.Y)
+	case *ast.UnaryExpr:
+		return x.Op.String() + tstr(info, x.X)
+	case *ast.BasicLit:
+		return x.Value
+	}
+	return types.ExprString(e)
 }
 
 // modifiers returns nodes in the body that may modify the assignable path.
@@ -426,7 +484,7 @@ func (bc *boundsCtx) modifiersOf(path string) []ast.Node {
 			lhs = unparen(lhs)
 			switch v := lhs.(type) {
 			case *ast.Ident, *ast.SelectorExpr:
-				bc.roots[exprStr(v)] = append(bc.roots[exprStr(v)], n)
+				bc.roots[tstr(bc.info, v)] = append(bc.roots[tstr(bc.info, v)], n)
 			case *ast.IndexExpr, *ast.StarExpr:
 				// element stores do not change len/identity of the path
 			}
@@ -452,7 +510,7 @@ func (bc *boundsCtx) modifiersOf(path string) []ast.Node {
 				}
 			case *ast.ValueSpec:
 				for _, n := range s.Names {
-					bc.roots[n.Name] = append(bc.roots[n.Name], s)
+					bc.roots[tstr(bc.info, n)] = append(bc.roots[tstr(bc.info, n)], s)
 				}
 			}
 			return true
@@ -494,53 +552,166 @@ func (g *Graph) reachFromAvoiding(start int, ef, et int) []bool {
 // path from the start of block `from` to location `use` that does not
 // re-traverse the edge (ef->from).
 func (bc *boundsCtx) modifiedBetween(ef, from int, use Loc, roots map[string]bool, useNode ast.Node) (ast.Node, bool) {
+	ms := bc.modifiersBetween(ef, from, use, roots, useNode)
+	if len(ms) == 0 {
+		return nil, false
+	}
+	return ms[0], true
+}
+
+// modLoc locates a modifier node: directly, or - when it sits inside a
+// nested function literal - at the statement that runs the literal: never
+// (kind 1) for deferred literals, which run after every use in the body, the
+// enclosing call for literals passed as call arguments (assumed to be invoked
+// synchronously by the callee), unknown (kind 2) otherwise.
+func (bc *boundsCtx) modLoc(mnode ast.Node) (Loc, int) {
+	if l, ok := bc.g.LocOf(mnode); ok {
+		return l, 0
+	}
+	if bc.parents == nil {
+		bc.parents = parentMap(bc.body)
+	}
+	// outermost literal within the body containing mnode
+	var lit *ast.FuncLit
+	for n := ast.Node(mnode); n != nil; n = bc.parents[n] {
+		if l, ok := n.(*ast.FuncLit); ok {
+			lit = l
+		}
+	}
+	if lit == nil {
+		return Loc{}, 2
+	}
+	par := bc.parents[lit]
+	if call, ok := par.(*ast.CallExpr); ok {
+		if call.Fun == ast.Expr(lit) {
+			switch bc.parents[call].(type) {
+			case *ast.DeferStmt:
+				return Loc{}, 1
+			}
+		}
+		for _, a := range call.Args {
+			if a == ast.Expr(lit) {
+				if _, isGo := bc.parents[call].(*ast.GoStmt); isGo {
+					return Loc{}, 2
+				}
+				if l, ok := bc.g.LocOf(call); ok {
+					return l, 0
+				}
+			}
+		}
+		if call.Fun == ast.Expr(lit) {
+			if _, isGo := bc.parents[call].(*ast.GoStmt); !isGo {
+				if l, ok := bc.g.LocOf(call); ok {
+					return l, 0
+				}
+			}
+		}
+	}
+	return Loc{}, 2
+}
+
+// modifiersBetween lists the modifier nodes of the roots that can execute
+// between the traversal of edge (ef->from) and the use.
+func (bc *boundsCtx) modifiersBetween(ef, from int, use Loc, roots map[string]bool, useNode ast.Node) []ast.Node {
 	g := bc.g
+	var out []ast.Node
 	reachFrom := g.reachFromAvoiding(from, ef, from) // blocks re-entered after leaving `from`
 	for r := range roots {
 		for _, mnode := range bc.modifiersOf(r) {
 			if mnode == useNode {
 				continue
 			}
-			ml, ok := g.LocOf(mnode)
-			if !ok {
-				// inside a nested function literal: conservatively a modifier anywhere
-				if vs, isVS := mnode.(*ast.ValueSpec); isVS {
-					_ = vs
-				}
+			ml, kind := bc.modLoc(mnode)
+			if kind == 1 {
 				continue
 			}
-			// A range statement's key/value are (re)assigned at loop head; locate at its X which precedes.
-			// Is mnode after entering `from` (without re-crossing edge)?
+			if kind == 2 {
+				out = append(out, mnode)
+				continue
+			}
 			after := ml.B == from || reachFrom[ml.B]
 			if !after {
 				continue
 			}
-			// does mnode reach use without re-crossing the edge?
 			if ml.B == use.B && ml.I < use.I {
-				// same block, before the use: and this block is on path
-				return mnode, true
-			}
-			if ml.B == use.B && ml.I >= use.I {
-				// after the use in the same block: reaches use only around a cycle avoiding the edge
-				r2 := g.reachFromAvoiding(ml.B, ef, from)
-				if r2[use.B] {
-					return mnode, true
-				}
+				out = append(out, mnode)
 				continue
 			}
 			r2 := g.reachFromAvoiding(ml.B, ef, from)
 			if r2[use.B] {
-				return mnode, true
+				out = append(out, mnode)
 			}
 		}
 	}
-	return nil, false
+	return out
+}
+
+// preservedBy reports whether the single-variable bound c (x - y >= k with
+// one side the zero term) still holds after the modifier executes: the
+// modifier must be a plain assignment of a value for which the same bound is
+// provable at the modifier's own location.
+func (bc *boundsCtx) preservedBy(c dbc, mnode ast.Node, depth int) bool {
+	if depth > 2 {
+		return false
+	}
+	as, ok := mnode.(*ast.AssignStmt)
+	if !ok || (as.Tok != token.ASSIGN && as.Tok != token.DEFINE) || len(as.Lhs) != len(as.Rhs) {
+		return false
+	}
+	v := c.x
+	if v == "" {
+		v = c.y
+	}
+	ml, ok := bc.g.LocOf(as)
+	if !ok {
+		return false
+	}
+	for i, l := range as.Lhs {
+		lt := bc.linOf(l)
+		if !lt.ok || lt.term != v || lt.off != 0 {
+			continue
+		}
+		r := bc.linOf(as.Rhs[i])
+		if !r.ok || !pureExpr(as.Rhs[i]) {
+			return false
+		}
+		bc.depth = depth + 1
+		cs := bc.constraintsAt(ml, as)
+		cs = bc.defConstraints(ml, as, cs)
+		cs = bc.shapeBounds(as.Rhs[i], cs)
+		bc.depth = depth
+		terms := map[string]bool{r.term: true}
+		for _, q := range cs {
+			terms[q.x] = true
+			terms[q.y] = true
+		}
+		cs = bc.termFacts(terms, cs)
+		cs = bc.applySums(cs)
+		sv := newSolver(cs)
+		if c.y == "" { // v >= k  -> need r.term + r.off >= k
+			return sv.proves(r.term, "", c.c-r.off)
+		}
+		// -v >= k  -> need -(r.term + r.off) >= k
+		return sv.proves("", r.term, c.c+r.off)
+	}
+	return false
 }
 
 // factsFor gathers valid constraints at location use.
 func (bc *boundsCtx) constraintsAt(use Loc, useNode ast.Node) []dbc {
 	g := bc.g
 	var out []dbc
+	// facts inherited from the call site(s) of this closure
+	for _, e := range bc.entry {
+		roots := map[string]bool{}
+		for _, t := range []string{e.x, e.y} {
+			rootsOfTerm(t, roots)
+		}
+		if bc.modifiedBeforeInBody(use, roots, useNode) {
+			continue
+		}
+		out = append(out, e)
+	}
 	// short-circuit facts inside the CFG node that contains the use:
 	// in `A || B` B is evaluated only when A is false, in `A && B` only when true.
 	if use.B < len(g.C.Blocks) && use.I < len(g.C.Blocks[use.B].Nodes) {
@@ -570,18 +741,45 @@ func (bc *boundsCtx) constraintsAt(use Loc, useNode ast.Node) []dbc {
 			}
 			for _, f := range facts {
 				roots := map[string]bool{}
-				rootsOfExpr(f.Cond, roots)
+				rootsOfExprI(bc.info, f.Cond, roots)
 				if f.Tag != nil {
-					rootsOfExpr(f.Tag, roots)
+					rootsOfExprI(bc.info, f.Tag, roots)
 				}
 				if !pureExpr(f.Cond) {
 					// conditions with calls: only len/cap/conversions are pure; others skipped
 					continue
 				}
-				if _, bad := bc.modifiedBetween(int(b.Index), int(s.Index), use, roots, useNode); bad {
+				if ms := bc.modifiersBetween(int(b.Index), int(s.Index), use, roots, useNode); len(ms) > 0 {
+					// keep single-variable bounds that every intervening assignment preserves
+					if bc.depth < 2 {
+						for _, c := range bc.relOf(f, nil) {
+							if (c.x == "") == (c.y == "") || strings.HasPrefix(c.why, "NEQ:") {
+								continue
+							}
+							v := c.x
+							if v == "" {
+								v = c.y
+							}
+							if strings.ContainsAny(v, "(.[ +-*") {
+								continue
+							}
+							all := true
+							for _, mn := range ms {
+								if !bc.preservedBy(c, mn, bc.depth) {
+									all = false
+									break
+								}
+							}
+							if all {
+								c.why += " (preserved by later assignments)"
+								out = append(out, c)
+							}
+						}
+					}
 					continue
 				}
 				out = bc.relOf(f, out)
+				out = bc.readFromFact(f, use, useNode, out)
 			}
 		}
 		// range loops: for i := range X  => in body 0 <= i < len(X)
@@ -616,7 +814,7 @@ func (bc *boundsCtx) constraintsAt(use Loc, useNode ast.Node) []dbc {
 			k := bc.linOf(rs.Key)
 			if n.ok && k.ok && bt.Info()&types.IsInteger != 0 {
 				roots := map[string]bool{}
-				rootsOfExpr(rs.X, roots)
+				rootsOfExprI(bc.info, rs.X, roots)
 				if _, bad := bc.modifiedBetween(int(b.Index), int(body.Index), use, roots, useNode); !bad {
 					out = append(out, dbc{k.term, "", -k.off, "range int"}, dbc{n.term, k.term, k.off - n.off + 1, "range int"})
 				}
@@ -631,17 +829,17 @@ func (bc *boundsCtx) constraintsAt(use Loc, useNode ast.Node) []dbc {
 			continue
 		}
 		roots := map[string]bool{}
-		rootsOfExpr(rs.X, roots)
+		rootsOfExprI(bc.info, rs.X, roots)
 		// the key itself must not be modified in the body before use (other than by the range)
 		kroots := map[string]bool{}
-		rootsOfExpr(rs.Key, kroots)
+		rootsOfExprI(bc.info, rs.Key, kroots)
 		if _, bad := bc.modifiedBetween(int(b.Index), int(body.Index), use, roots, useNode); bad {
 			continue
 		}
 		if mn, bad := bc.modifiedBetween(int(b.Index), int(body.Index), use, kroots, useNode); bad && mn != ast.Node(rs) {
 			continue
 		}
-		lt := "len(" + exprStr(rs.X) + ")"
+		lt := "len(" + tstr(bc.info, rs.X) + ")"
 		out = append(out, dbc{k.term, "", -k.off, "range"}, dbc{lt, k.term, k.off + 1, "range"})
 	}
 	return out
@@ -671,7 +869,7 @@ func (bc *boundsCtx) defConstraints(use Loc, useNode ast.Node, out []dbc) []dbc 
 				return
 			}
 			roots := map[string]bool{}
-			rootsOfExpr(lhs, roots)
+			rootsOfExprI(bc.info, lhs, roots)
 			for r := range rhsRoots {
 				roots[r] = true
 			}
@@ -684,20 +882,57 @@ func (bc *boundsCtx) defConstraints(use Loc, useNode ast.Node, out []dbc) []dbc 
 			for i := range as.Lhs {
 				rhs := as.Rhs[i]
 				r := bc.linOf(rhs)
+				if bx, isAdd := unparen(rhs).(*ast.BinaryExpr); isAdd && bx.Op == token.ADD && pureExpr(rhs) {
+					a, b := bc.linOf(bx.X), bc.linOf(bx.Y)
+					if a.ok && b.ok && a.term != "" && b.term != "" && a.off == 0 && b.off == 0 {
+						rr := map[string]bool{}
+						rootsOfExprI(bc.info, rhs, rr)
+						check(as.Lhs[i], func(lt string) []dbc {
+							bc.sums2 = append(bc.sums2, [3]string{lt, a.term, b.term})
+							cs := bc.shapeBounds(bx.X, nil)
+							return bc.shapeBounds(bx.Y, cs)
+						}, rr)
+					}
+				}
 				if r.ok && pureExpr(rhs) {
 					rr := map[string]bool{}
-					rootsOfExpr(rhs, rr)
+					rootsOfExprI(bc.info, rhs, rr)
 					check(as.Lhs[i], func(lt string) []dbc {
 						cs := []dbc{{lt, r.term, r.off, "def"}, {r.term, lt, -r.off, "def"}}
 						return bc.shapeBounds(rhs, cs)
 					}, rr)
 				} else if c, ok := unparen(rhs).(*ast.CallExpr); ok {
-					bc.callSummary(c, []ast.Expr{as.Lhs[i]}, check)
+					bc.callSummary(c, []ast.Expr{as.Lhs[i]}, check, dl, use, as, useNode)
+				}
+				// v = X[lo:hi]  =>  len(v) == hi - lo
+				if se, ok := unparen(rhs).(*ast.SliceExpr); ok && pureExpr(se) {
+					lo := lin{"", 0, true}
+					if se.Low != nil {
+						lo = bc.linOf(se.Low)
+					}
+					var hi lin
+					if se.High != nil {
+						hi = bc.linOf(se.High)
+					} else {
+						hi = lin{"len(" + tstr(bc.info, se.X) + ")", 0, true}
+					}
+					if lo.ok && hi.ok && (lo.term == "" || hi.term == "") {
+						rr := map[string]bool{}
+						rootsOfExprI(bc.info, se, rr)
+						check(as.Lhs[i], func(lt string) []dbc {
+							l := "len(" + lt + ")"
+							if lo.term == "" { // len == hi - lo.off
+								return []dbc{{l, hi.term, hi.off - lo.off, "def slice"}, {hi.term, l, lo.off - hi.off, "def slice"}}
+							}
+							// hi constant: len == hi.off - lo
+							return []dbc{{"", l, -hi.off + lo.off, "def slice"}}
+						}, rr)
+					}
 				}
 			}
 		} else if len(as.Rhs) == 1 {
 			if c, ok := unparen(as.Rhs[0]).(*ast.CallExpr); ok {
-				bc.callSummary(c, as.Lhs, check)
+				bc.callSummary(c, as.Lhs, check, dl, use, as, useNode)
 			}
 		}
 		return true
@@ -706,7 +941,7 @@ func (bc *boundsCtx) defConstraints(use Loc, useNode ast.Node, out []dbc) []dbc 
 }
 
 // callSummary applies a registered summary for call with result expressions lhs.
-func (bc *boundsCtx) callSummary(c *ast.CallExpr, lhs []ast.Expr, check func(lhs ast.Expr, cons func(string) []dbc, rhsRoots map[string]bool)) {
+func (bc *boundsCtx) callSummary(c *ast.CallExpr, lhs []ast.Expr, check func(lhs ast.Expr, cons func(string) []dbc, rhsRoots map[string]bool), dl, use Loc, defNode, useNode ast.Node) {
 	obj := calleeObj(bc.info, c)
 	if obj == nil {
 		return
@@ -726,11 +961,11 @@ func (bc *boundsCtx) callSummary(c *ast.CallExpr, lhs []ast.Expr, check func(lhs
 		if l.ok && l.off == 0 {
 			args = append(args, l.term)
 		} else if pureExpr(a) {
-			args = append(args, exprStr(a))
+			args = append(args, tstr(bc.info, a))
 		} else {
 			args = append(args, "?")
 		}
-		rootsOfExpr(a, argRoots)
+		rootsOfExprI(bc.info, a, argRoots)
 	}
 	// summaries refer to len(arg): modifications of arg roots invalidate
 	for i := range lhs {
@@ -745,13 +980,57 @@ func (bc *boundsCtx) callSummary(c *ast.CallExpr, lhs []ast.Expr, check func(lhs
 			}
 			res[i] = lt
 			var out []dbc
-			for _, d := range sum(res, args) {
+			// self-assignment (x = f(x, ..)): the argument denotes the OLD value;
+			// rename it and import what is known about the old value at the call.
+			useArgs := args
+			var imported []dbc
+			for ai, a := range args {
+				if a != lt {
+					continue
+				}
+				oldT := fmt.Sprintf("old@%d:%s", c.Pos(), a)
+				useArgs = append([]string{}, useArgs...)
+				useArgs[ai] = oldT
+				if bc.depth < 2 {
+					bc.depth++
+					pre := bc.constraintsAt(dl, defNode)
+					pre = bc.defConstraints(dl, defNode, pre)
+					bc.depth--
+					for _, q := range pre {
+						lenA, lenOld := "len("+a+")", "len("+oldT+")"
+						if q.x != lenA && q.y != lenA {
+							continue
+						}
+						other := q.x
+						if q.x == lenA {
+							other = q.y
+						}
+						if other == lenA {
+							continue
+						}
+						oroots := map[string]bool{}
+						rootsOfTerm(other, oroots)
+						if bc.modBetweenLocs(dl, use, oroots, defNode, useNode) {
+							continue
+						}
+						nq := q
+						if nq.x == lenA {
+							nq.x = lenOld
+						}
+						if nq.y == lenA {
+							nq.y = lenOld
+						}
+						imported = append(imported, nq)
+					}
+				}
+			}
+			for _, d := range sum(res, useArgs) {
 				if d.x == "?" || d.y == "?" || strings.Contains(d.x, "(?)") || strings.Contains(d.y, "(?)") {
 					continue
 				}
 				out = append(out, d)
 			}
-			return out
+			return append(out, imported...)
 		}, argRoots)
 	}
 }
@@ -765,8 +1044,11 @@ func (bc *boundsCtx) modBetweenLocs(def, use Loc, roots map[string]bool, defNode
 			if mnode == defNode || mnode == useNode {
 				continue
 			}
-			ml, ok := g.LocOf(mnode)
-			if !ok {
+			ml, kind := bc.modLoc(mnode)
+			if kind == 1 {
+				continue
+			}
+			if kind == 2 {
 				return true
 			}
 			after := (ml.B == def.B && ml.I > def.I) || (ml.B != def.B && g.reachNoLoc(def.B, ml.B, def.B))
@@ -808,6 +1090,9 @@ func (g *Graph) reachNoLoc(from, to, avoid int) bool {
 // a non-negative constant initialisation, ++, or += of a provably
 // non-negative expression (len, unsigned, constant >= 0).
 func (bc *boundsCtx) monotoneNonNeg(name string) bool {
+	if bc.full != nil {
+		return bc.full.monotoneNonNeg(name)
+	}
 	mods := bc.modifiersOf(name)
 	if len(mods) == 0 {
 		return false
@@ -820,7 +1105,7 @@ func (bc *boundsCtx) monotoneNonNeg(name string) bool {
 			}
 		case *ast.AssignStmt:
 			for i, l := range s.Lhs {
-				if exprStr(unparen(l)) != name {
+				if tstr(bc.info, unparen(l)) != name {
 					continue
 				}
 				if len(s.Rhs) != len(s.Lhs) {
@@ -934,8 +1219,36 @@ var lenRequiringCalls = map[string]int64{
 
 // BoundsCheck proves every index/slice sink of the body (function or
 // literal) and returns the sinks with verdicts.
-func BoundsCheck(f *Func, body *ast.BlockStmt, g *Graph, sums map[string]calleeSummary, filter func(n ast.Node) bool) []Sink {
-	bc := &boundsCtx{f: f, g: g, info: f.Info(), body: body, sum: sums}
+// BoundsOpts configures the prover for one body.
+type BoundsOpts struct {
+	Sums    map[string]calleeSummary
+	Entry   []dbc                                  // facts holding whenever the body (a closure) is entered
+	MinSize func(recv types.Type) (int64, bool)    // minimal input length for a successful ReadFrom on the receiver type
+	NoUpper bool                                   // AllocCheck: require only size >= 0
+}
+
+func newBoundsCtx(f *Func, body *ast.BlockStmt, g *Graph, o BoundsOpts) *boundsCtx {
+	bc := &boundsCtx{f: f, g: g, info: f.Info(), body: body, sum: o.Sums, entry: o.Entry, minSz: o.MinSize}
+	if body != f.Decl.Body {
+		bc.full = &boundsCtx{f: f, g: f.Graph(), info: f.Info(), body: f.Decl.Body, sum: o.Sums}
+	}
+	return bc
+}
+
+// FactsAtCall returns the constraints that hold at a call expression of the body (for closure inheritance).
+func FactsAtCall(f *Func, body *ast.BlockStmt, g *Graph, o BoundsOpts, call ast.Node) ([]dbc, bool) {
+	bc := newBoundsCtx(f, body, g, o)
+	use, ok := g.LocOf(call)
+	if !ok || !g.Reachable(use) {
+		return nil, false
+	}
+	cs := bc.constraintsAt(use, call)
+	cs = bc.defConstraints(use, call, cs)
+	return cs, true
+}
+
+func BoundsCheck(f *Func, body *ast.BlockStmt, g *Graph, o BoundsOpts, filter func(n ast.Node) bool) []Sink {
+	bc := newBoundsCtx(f, body, g, o)
 	var sinks []Sink
 	var visit func(n ast.Node) bool
 	visit = func(x ast.Node) bool {
@@ -967,7 +1280,7 @@ func BoundsCheck(f *Func, body *ast.BlockStmt, g *Graph, sums map[string]calleeS
 				}
 			}
 			sinkExtra = extra
-			lt := "len(" + exprStr(e.X) + ")"
+			lt := "len(" + tstr(bc.info, e.X) + ")"
 			if n, ok := bc.arrayLen(e.X); ok {
 				if idx.ok && idx.term == "" {
 					return true // constant index into array: compile-time checked
@@ -991,8 +1304,8 @@ func BoundsCheck(f *Func, body *ast.BlockStmt, g *Graph, sums map[string]calleeS
 				return true
 			}
 			// upper limit: cap for slices, len for strings/arrays
-			lim := "cap(" + exprStr(e.X) + ")"
-			lenT := "len(" + exprStr(e.X) + ")"
+			lim := "cap(" + tstr(bc.info, e.X) + ")"
+			lenT := "len(" + tstr(bc.info, e.X) + ")"
 			var limConst int64 = -1
 			if n, ok := bc.arrayLen(e.X); ok {
 				limConst = n
@@ -1032,7 +1345,11 @@ func BoundsCheck(f *Func, body *ast.BlockStmt, g *Graph, sums map[string]calleeS
 					needs = append(needs, need{mx.term, hi.term, hi.off - mx.off, "high <= max"})
 				}
 			} else if e.High != nil {
-				needs = append(needs, bound(hi, "high <= len"))
+				if hi.term == "cap("+tstr(bc.info, e.X)+")" && hi.off <= 0 && limConst < 0 {
+					// s[:cap(s)] is always within the slice's capacity
+				} else {
+					needs = append(needs, bound(hi, "high <= len"))
+				}
 			}
 			if e.Low != nil && e.High != nil {
 				needs = append(needs, need{hi.term, lo.term, lo.off - hi.off, "low <= high"})
@@ -1064,14 +1381,14 @@ func BoundsCheck(f *Func, body *ast.BlockStmt, g *Graph, sums map[string]calleeS
 						if se.High != nil {
 							hi = bc.linOf(se.High)
 						} else {
-							hi = lin{"len(" + exprStr(se.X) + ")", 0, true}
+							hi = lin{"len(" + tstr(bc.info, se.X) + ")", 0, true}
 						}
 						if lo.ok && hi.ok {
 							needs = []need{{hi.term, lo.term, lo.off - hi.off + req, fmt.Sprintf("len(arg) >= %d", req)}}
 						}
 					}
 					if needs == nil {
-						needs = []need{{"len(" + exprStr(arg) + ")", "", req, fmt.Sprintf("len(arg) >= %d", req)}}
+						needs = []need{{"len(" + tstr(bc.info, arg) + ")", "", req, fmt.Sprintf("len(arg) >= %d", req)}}
 					}
 				}
 			}
@@ -1092,6 +1409,7 @@ func BoundsCheck(f *Func, body *ast.BlockStmt, g *Graph, sums map[string]calleeS
 		if !g.Reachable(use) {
 			return true
 		}
+		bc.sums2 = nil
 		cs := bc.constraintsAt(use, x)
 		cs = bc.defConstraints(use, x, cs)
 		cs = append(cs, sinkExtra...)
@@ -1116,16 +1434,8 @@ func BoundsCheck(f *Func, body *ast.BlockStmt, g *Graph, sums map[string]calleeS
 			terms[c.x] = true
 			terms[c.y] = true
 		}
-		for t := range terms {
-			if strings.HasPrefix(t, "len(") {
-				cs = append(cs, dbc{t, "", 0, "len>=0"})
-				inner := strings.TrimSuffix(strings.TrimPrefix(t, "len("), ")")
-				cs = append(cs, dbc{"cap(" + inner + ")", t, 0, "cap>=len"})
-			}
-			if t != "" && !strings.ContainsAny(t, "(.[ +-*") && bc.monotoneNonNeg(t) {
-				cs = append(cs, dbc{t, "", 0, "counter only incremented from >= 0"})
-			}
-		}
+		cs = bc.termFacts(terms, cs)
+		cs = bc.applySums(cs)
 		sv := newSolver(cs)
 		okAll := true
 		var missing []string
@@ -1167,8 +1477,8 @@ func dedupe(s []string) []string {
 // AllocCheck proves, for every make(T, n[, m]) with a non-constant size in
 // the body, that n >= 0 and that n is bounded above by the length of some
 // slice/string in scope (plus a constant) or by a constant <= maxConst.
-func AllocCheck(f *Func, body *ast.BlockStmt, g *Graph, sums map[string]calleeSummary, maxConst int64) []Sink {
-	bc := &boundsCtx{f: f, g: g, info: f.Info(), body: body, sum: sums}
+func AllocCheck(f *Func, body *ast.BlockStmt, g *Graph, o BoundsOpts, maxConst int64) []Sink {
+	bc := newBoundsCtx(f, body, g, o)
 	var sinks []Sink
 	ast.Inspect(body, func(x ast.Node) bool {
 		if x == nil {
@@ -1205,6 +1515,7 @@ func AllocCheck(f *Func, body *ast.BlockStmt, g *Graph, sums map[string]calleeSu
 			if !g.Reachable(use) {
 				continue
 			}
+			bc.sums2 = nil
 			cs := bc.constraintsAt(use, call)
 			cs = bc.defConstraints(use, call, cs)
 			cs = bc.shapeBounds(szArg, cs)
@@ -1213,14 +1524,8 @@ func AllocCheck(f *Func, body *ast.BlockStmt, g *Graph, sums map[string]calleeSu
 				terms[c.x] = true
 				terms[c.y] = true
 			}
-			for t := range terms {
-				if strings.HasPrefix(t, "len(") {
-					cs = append(cs, dbc{t, "", 0, "len>=0"})
-				}
-				if t != "" && !strings.ContainsAny(t, "(.[ +-*") && bc.monotoneNonNeg(t) {
-					cs = append(cs, dbc{t, "", 0, "counter"})
-				}
-			}
+			cs = bc.termFacts(terms, cs)
+			cs = bc.applySums(cs)
 			sv := newSolver(cs)
 			var missing []string
 			if !sv.proves(sz.term, "", -sz.off) {
@@ -1246,7 +1551,7 @@ func AllocCheck(f *Func, body *ast.BlockStmt, g *Graph, sums map[string]calleeSu
 					bounded = fmt.Sprintf("<= %d", -lb+sz.off)
 				}
 			}
-			if bounded == "" {
+			if bounded == "" && !o.NoUpper {
 				missing = append(missing, "upper bound by remaining input or a constant")
 			}
 			why := ""
@@ -1307,4 +1612,258 @@ func shortCircuitFacts(root, target ast.Node) []Fact {
 	}
 	walk(root)
 	return out
+}
+
+var termIdentRe = regexp.MustCompile(`[A-Za-z_][A-Za-z0-9_]*(#[0-9]+)?(\.[A-Za-z_][A-Za-z0-9_]*)*`)
+
+// rootsOfTerm extracts assignable paths mentioned by a canonical term string.
+func rootsOfTerm(t string, out map[string]bool) {
+	for _, m := range termIdentRe.FindAllString(t, -1) {
+		if m == "len" || m == "cap" {
+			continue
+		}
+		parts := strings.Split(m, ".")
+		for i := 1; i <= len(parts); i++ {
+			out[strings.Join(parts[:i], ".")] = true
+		}
+	}
+}
+
+// modifiedBeforeInBody: some modifier of the roots inside this body can
+// execute before the use (on a path from the body's entry).
+func (bc *boundsCtx) modifiedBeforeInBody(use Loc, roots map[string]bool, useNode ast.Node) bool {
+	for r := range roots {
+		for _, mnode := range bc.modifiersOf(r) {
+			if mnode == useNode {
+				continue
+			}
+			ml, kind := bc.modLoc(mnode)
+			if kind == 1 {
+				continue
+			}
+			if kind == 2 {
+				return true
+			}
+			if (ml.B == use.B && ml.I < use.I) || bc.g.reachNoLoc(ml.B, use.B, -1) {
+				return true
+			}
+		}
+	}
+	return false
+}
+
+// termFacts adds facts that follow from the shape of the terms themselves:
+// len/cap non-negativity, counters only incremented from >= 0, and local
+// variables that are only ever assigned constants.
+func (bc *boundsCtx) termFacts(terms map[string]bool, cs []dbc) []dbc {
+	for t := range terms {
+		if strings.HasPrefix(t, "len(") {
+			cs = append(cs, dbc{t, "", 0, "len>=0"})
+			inner := strings.TrimSuffix(strings.TrimPrefix(t, "len("), ")")
+			cs = append(cs, dbc{"cap(" + inner + ")", t, 0, "cap>=len"})
+		}
+		if strings.HasPrefix(t, "cap(") {
+			cs = append(cs, dbc{t, "", 0, "cap>=0"})
+		}
+		if t != "" && !strings.ContainsAny(t, "(.[ +-*") {
+			if bc.monotoneNonNeg(t) {
+				cs = append(cs, dbc{t, "", 0, "counter only incremented from >= 0"})
+			}
+			if lo, hi, ok := bc.constSet(t); ok {
+				cs = append(cs, dbc{t, "", lo, "only assigned constants"}, dbc{"", t, -hi, "only assigned constants"})
+			}
+		}
+	}
+	return cs
+}
+
+// constSet: the local variable is only ever assigned integer constants
+// (including its zero value); returns the range of those constants.
+func (bc *boundsCtx) constSet(name string) (lo, hi int64, ok bool) {
+	if bc.full != nil {
+		return bc.full.constSet(name)
+	}
+	mods := bc.modifiersOf(name)
+	if len(mods) == 0 {
+		return 0, 0, false
+	}
+	first := true
+	add := func(v int64) {
+		if first || v < lo {
+			lo = v
+		}
+		if first || v > hi {
+			hi = v
+		}
+		first = false
+	}
+	for _, m := range mods {
+		switch s := m.(type) {
+		case *ast.AssignStmt:
+			if s.Tok != token.ASSIGN && s.Tok != token.DEFINE {
+				return 0, 0, false
+			}
+			if len(s.Lhs) != len(s.Rhs) {
+				return 0, 0, false
+			}
+			for i, l := range s.Lhs {
+				if tstr(bc.info, unparen(l)) != name {
+					continue
+				}
+				v, isC := constInt(bc.info, s.Rhs[i])
+				if !isC {
+					return 0, 0, false
+				}
+				add(v)
+			}
+		case *ast.ValueSpec:
+			for i, n := range s.Names {
+				if tstr(bc.info, n) != name {
+					continue
+				}
+				if i < len(s.Values) {
+					v, isC := constInt(bc.info, s.Values[i])
+					if !isC {
+						return 0, 0, false
+					}
+					add(v)
+				} else {
+					add(0)
+				}
+			}
+		default:
+			return 0, 0, false
+		}
+	}
+	return lo, hi, !first
+}
+
+// readFromFact: the fact `err == nil` (or !(err != nil)) where err was
+// defined by `err := X.ReadFrom(arg)` implies len(arg) >= minSize(type of X).
+func (bc *boundsCtx) readFromFact(f Fact, use Loc, useNode ast.Node, out []dbc) []dbc {
+	if bc.minSz == nil || f.Tag != nil {
+		return out
+	}
+	b, ok := unparen(f.Cond).(*ast.BinaryExpr)
+	if !ok || exprStr(b.Y) != "nil" {
+		return out
+	}
+	if !((b.Op == token.NEQ && !f.Val) || (b.Op == token.EQL && f.Val)) {
+		return out
+	}
+	id, ok := unparen(b.X).(*ast.Ident)
+	if !ok {
+		return out
+	}
+	obj := bc.info.Uses[id]
+	if obj == nil {
+		return out
+	}
+	// find the single defining assignment of obj
+	var def *ast.AssignStmt
+	ndefs := 0
+	ast.Inspect(bc.body, func(x ast.Node) bool {
+		as, ok := x.(*ast.AssignStmt)
+		if !ok {
+			return true
+		}
+		for _, l := range as.Lhs {
+			if lid, ok := l.(*ast.Ident); ok && (bc.info.Defs[lid] == obj || bc.info.Uses[lid] == obj) {
+				ndefs++
+				def = as
+			}
+		}
+		return true
+	})
+	if ndefs != 1 || def == nil || len(def.Rhs) != 1 {
+		return out
+	}
+	call, ok := unparen(def.Rhs[0]).(*ast.CallExpr)
+	if !ok || len(call.Args) != 1 {
+		return out
+	}
+	sel, ok := unparen(call.Fun).(*ast.SelectorExpr)
+	if !ok || (sel.Sel.Name != "ReadFrom" && sel.Sel.Name != "UnsafeReadFrom") {
+		return out
+	}
+	rt := bc.info.Types[sel.X].Type
+	if rt == nil {
+		return out
+	}
+	k, ok := bc.minSz(rt)
+	if !ok {
+		return out
+	}
+	arg := unparen(call.Args[0])
+	if !pureExpr(arg) {
+		return out
+	}
+	dl, ok := bc.g.LocOf(def)
+	if !ok {
+		return out
+	}
+	roots := map[string]bool{}
+	rootsOfExprI(bc.info, arg, roots)
+	if bc.modBetweenLocs(dl, use, roots, def, useNode) {
+		return out
+	}
+	why := fmt.Sprintf("%s succeeded => input >= %d bytes", exprStr(call.Fun), k)
+	if se, ok := arg.(*ast.SliceExpr); ok && se.Max == nil {
+		lo := lin{"", 0, true}
+		if se.Low != nil {
+			lo = bc.linOf(se.Low)
+		}
+		var hi lin
+		if se.High != nil {
+			hi = bc.linOf(se.High)
+		} else {
+			hi = lin{"len(" + tstr(bc.info, se.X) + ")", 0, true}
+		}
+		if lo.ok && hi.ok {
+			out = append(out, dbc{hi.term, lo.term, k - hi.off + lo.off, why})
+		}
+		return out
+	}
+	out = append(out, dbc{"len(" + tstr(bc.info, arg) + ")", "", k, why})
+	return out
+}
+
+// argRootsFor: for a self-assignment the assigned variable itself is not a
+// root whose later modification matters beyond the lhs (already included).
+func argRootsFor(lt string, args []string, roots map[string]bool) map[string]bool {
+	return roots
+}
+
+// applySums derives bounds for t == a + b from the lower bounds of a and b.
+func (bc *boundsCtx) applySums(cs []dbc) []dbc {
+	if len(bc.sums2) == 0 {
+		return cs
+	}
+	for round := 0; round < 2; round++ {
+		sv := newSolver(cs)
+		for _, d := range bc.sums2 {
+			t, a, b := d[0], d[1], d[2]
+			la, oka := sv.lower(a, "")
+			lb, okb := sv.lower(b, "")
+			if oka {
+				cs = append(cs, dbc{t, b, la, "sum: t = a + b, a >= lower"})
+			}
+			if okb {
+				cs = append(cs, dbc{t, a, lb, "sum: t = a + b, b >= lower"})
+			}
+			if oka && okb {
+				cs = append(cs, dbc{t, "", la + lb, "sum of lower bounds"})
+			}
+			// upper bounds
+			ua, oka2 := sv.lower("", a)
+			ub, okb2 := sv.lower("", b)
+			if oka2 {
+				cs = append(cs, dbc{b, t, ua, "sum: t = a + b, a <= upper"})
+			}
+			if okb2 {
+				cs = append(cs, dbc{a, t, ub, "sum: t = a + b, b <= upper"})
+			}
+		}
+	}
+	return cs
 }
